@@ -545,7 +545,11 @@ fn builtin_round(args: Vec<Rc<Object>>) -> Result<Rc<Object>, String> {
                 let multiplier = 10i64.pow(*n as u32);
                 // A float of this magnitude has no fractional digits left (and
                 // scaling it could overflow): it is its own rounding
-                let rounded = if f.abs() >= 4503599627370496.0 || !(f * multiplier as f64).is_finite() {
+                // (the same holds once the scaled value has no fractional digits left)
+                let rounded = if f.abs() >= 4503599627370496.0
+                    || !(f * multiplier as f64).is_finite()
+                    || (f * multiplier as f64).abs() >= 4503599627370496.0
+                {
                     *f
                 } else {
                     (f * multiplier as f64).round() / multiplier as f64
